@@ -63,7 +63,7 @@ func caseC05(c *Ctx) {
 		fo.maxRoots = 1
 	}
 	forest := genForest(c, fo)
-	branch := branchSets[c.Pick(3, 1, 1, 1, 1)]
+	branch := branchSets[c.Pick(3, 1, 1, 1, 1, 1, 1)]
 	op := Op{Kind: "walk", Branch: branch}
 	switch form {
 	case "callback/root":
@@ -75,7 +75,22 @@ func caseC05(c *Ctx) {
 		op.Alias = true
 	}
 	sp := genSpelling(c, false)
-	doc, _ := spell(c, forest, sp)
+	doc, parts := spell(c, forest, sp)
+	levelJump := false
+	if form == "callback/md" && c.Chance(1, 6) {
+		// a line nested two levels deeper than its predecessor: simple mode accepts the document
+		// and drops the line; whatever it renders, the walk must visit exactly that
+		pi := c.Draw(len(parts))
+		lines := strings.Split(strings.TrimRight(string(parts[pi]), "\n"), "\n")
+		if len(lines) >= 3 {
+			li := 2 + c.Draw(len(lines)-2)
+			lines[li] = sp.Unit + sp.Unit + lines[li]
+			parts[pi] = []byte(strings.Join(lines, "\n") + "\n")
+			doc = joinParts(parts)
+			levelJump = true
+			c.st.Count("md-with-level-jump")
+		}
+	}
 	c.Scenario["form"] = form
 	c.Scenario["op"] = op.String()
 	c.Scenario["forest"] = forestString(forest)
@@ -105,6 +120,9 @@ func caseC05(c *Ctx) {
 	}
 	// ---- fault-free walk: same nodes, same order, consistent facts
 	base := run(-1)
+	if levelJump && base.Err != nil && len(base.Panics) == 0 {
+		c.Skip("level-jump document rejected by the parser")
+	}
 	if len(base.Panics) > 0 || base.Err != nil || base.Hang || base.BubbleErr != "" {
 		c.Failf("C05:fault-free-walk-failed:"+form, "err=%s panics=%v hang=%v bubble=%s", errStr(base.Err), base.Panics, base.Hang, base.BubbleErr)
 	}
@@ -112,6 +130,24 @@ func caseC05(c *Ctx) {
 		c.Failf("C05:walker-node-changes-after-its-visit:"+form, "%s", base.StaleNodes)
 	}
 	want := modelVisits(forest, branch)
+	if levelJump {
+		// no model for such a document: the reference is the text output alone
+		outOp := Op{Kind: "output", Branch: branch}
+		txt := c.Direct(outOp, mk(-1))
+		if txt.Err != nil {
+			c.Skip("level-jump document rejected")
+		}
+		lines := strings.Split(strings.TrimSuffix(string(txt.Out), "\n"), "\n")
+		if len(lines) != len(base.Visits) {
+			c.Failf("C05:output-lines-vs-visits:"+form, "document with a level jump: %d output lines, %d visits\noutput:\n%s", len(lines), len(base.Visits), txt.Out)
+		}
+		for i, v := range base.Visits {
+			if v.Row != lines[i] {
+				c.Failf("C05:row-differs-from-output-line:"+form, "document with a level jump: visit %d: Row %q, output line %q", i, v.Row, lines[i])
+			}
+		}
+		return
+	}
 	if len(base.Visits) != len(want) {
 		c.Failf("C05:visit-count:"+form, "visited %d nodes, the tree has %d", len(base.Visits), len(want))
 	}
@@ -232,6 +268,26 @@ func c05Deferred(c *Ctx, model *MNode, branch []string, alias bool) {
 			got = append(got, visitOf(wn))
 		}
 		c.st.Count("evaluations")
+		if round == 2 {
+			// a third consumption with another, abandoned walk nested in its loop body
+			other := buildNode(&MNode{Name: "other", Kids: []*MNode{{Name: "x"}, {Name: "y"}}})
+			var nested []Visit
+			for wn, err := range it {
+				if err != nil {
+					gerr = err
+					break
+				}
+				nested = append(nested, visitOf(wn))
+				if len(nested) == 1+len(want)/2 {
+					for range gtree.WalkIterFromRoot(other) {
+						break // leave the inner walk at its first node
+					}
+				}
+			}
+			if len(nested) != len(want) {
+				c.Failf("C05:walk-disturbed-by-another-walk", "an iterator walk during which another tree's iterator was started and left early visited %d of %d nodes", len(nested), len(want))
+			}
+		}
 		if gerr != nil {
 			c.Failf("C05:deferred-iteration-error", "round %d: %v", round, gerr)
 		}
